@@ -72,6 +72,8 @@ pub fn run(file: &str) {
         }
         let mut obs: Vec<String> = Vec::new();
         let log = Arc::new(Mutex::new(Vec::new()));
+        // self-check run inside every fill callback: every item visible at that moment must be complete
+        let torn: Arc<Mutex<Vec<String>>> = Arc::new(Mutex::new(Vec::new()));
         let mut vec: Option<Arc<VVec<Val>>> = None;
         let mut threads: HashMap<u64, sched::Thread> = HashMap::new();
         for ev in line.split(';') {
@@ -86,6 +88,19 @@ pub fn run(file: &str) {
                     let t: u64 = p[1].parse().unwrap();
                     let v = vec.clone().unwrap();
                     let log2 = log.clone();
+                    let torn2 = torn.clone();
+                    let vprobe = v.clone();
+                    let probe = move || {
+                        let n = vprobe.count().min(200);
+                        for i in 0..n {
+                            if let Some(item) = vprobe.get(i) {
+                                let want = format!("{}", item.data.id * 2 + 1);
+                                if item.matcher_columns[0].to_string() != want {
+                                    torn2.lock().unwrap().push(format!("{}:{}", i, item.data.id));
+                                }
+                            }
+                        }
+                    };
                     if p[2] == "push" {
                         let id: u64 = p[3].parse().unwrap();
                         let fp = p.get(4) == Some(&"p");
@@ -93,6 +108,7 @@ pub fn run(file: &str) {
                             t,
                             sched::spawn(vec!["push.before_reserve"], move || {
                                 let idx = v.push(Val { id, log: log2 }, |val, cols| {
+                                    probe();
                                     if fp {
                                         panic!("fill");
                                     }
@@ -114,6 +130,7 @@ pub fn run(file: &str) {
                                 let idmap: Vec<u64> = ids.clone();
                                 let it = Lying { vals: vals.into_iter(), reported: count };
                                 v.extend(it, move |val, cols| {
+                                    probe();
                                     if let Some(k) = pa {
                                         if idmap.get(k as usize) == Some(&val.id) {
                                             panic!("fill");
@@ -180,6 +197,8 @@ pub fn run(file: &str) {
         let mut all: Vec<u64> = log.lock().unwrap().clone();
         all.sort();
         obs.push(format!("T{}", all.iter().map(|x| x.to_string()).collect::<Vec<_>>().join(",")));
+        let t = torn.lock().unwrap();
+        obs.push(if t.is_empty() { "W0".to_string() } else { format!("W{}", t.join(",")) });
         writeln!(out, "{}", obs.join(";")).unwrap();
     }
 }
